@@ -25,8 +25,9 @@ var verifParamSeps = []string{"\n", " \n", "\t\n", " // x\n", "\t// x\n", " # c\
 // any of: line end, blank or TAB and line end, blank or TAB and an annotation,
 // blank or TAB and a comment, end of input - is what the catalog holds for it, for
 // each parameter-taking host: Title, Version, BaseUrl, JSON-RPC Method name.
-//   bare:   N bytes over {a b . - @ : / *}, not starting with "//" or "/*"
-//   quoted: N bytes over {a blank TAB " \ # / *}, at least one 'a'
+//
+//	bare:   N bytes over {a b . - @ : / *}, not starting with "//" or "/*"
+//	quoted: N bytes over {a blank TAB " \ # / *}, at least one 'a'
 func VerifH_ParameterDoc() {
 	n := verifrt.Choice("n", verifrt.Bound("N")) + 1
 	v := verifrt.String("v", n)
